@@ -136,6 +136,13 @@ func genDataEnv() *rapid.Generator[*dataEnv] {
 			spec.String("sn"),
 			spec.Ptr(spec.Float64(2.5)),
 		}))
+		// one of two different struct types that print the same name ("spec.Person"), with their
+		// fields in different order: what a field access gives is decided by the value's own type
+		if rapid.Bool().Draw(rt, "personA") {
+			e.add("pp", &spec.Value{T: spec.FixedType("PersonA"), Items: []*spec.Value{spec.String(rapid.SampledFrom(plainStrings).Draw(rt, "ppName")), spec.IntOf(spec.TInt, rapid.Int64Range(-9, 99).Draw(rt, "ppAge"))}})
+		} else {
+			e.add("pp", &spec.Value{T: spec.FixedType("PersonB"), Items: []*spec.Value{spec.IntOf(spec.TInt, rapid.Int64Range(-9, 99).Draw(rt, "ppAge")), spec.String(rapid.SampledFrom(plainStrings).Draw(rt, "ppName")), spec.String("m@x")}})
+		}
 		return e
 	})
 }
@@ -230,6 +237,7 @@ func (g *exprGen) gen(rt *rapid.T, k refint.Kind, depth int) *tw.Expr {
 				return rapid.SampledFrom([]*tw.Expr{
 					tw.Dot(tw.Var("om"), "n"), tw.Index(tw.Var("om"), tw.Str("n")), tw.Dot(tw.Var("st"), "Num"),
 					tw.Dot(tw.Var("st"), "num"), tw.Dot(tw.Dot(tw.Var("om"), "inner"), "k"), tw.Index(tw.Dot(tw.Var("om"), "inner"), tw.Str("k")),
+					tw.Dot(tw.Var("pp"), "age"), tw.Dot(tw.Var("pp"), "Age"),
 				}).Draw(rt, "member")
 			}
 			return tw.Dot(tw.Obj([]string{"a", "b"}, []*tw.Expr{g.gen(rt, k, depth-1), tw.Str("z")}), "a")
@@ -272,6 +280,7 @@ func (g *exprGen) gen(rt *rapid.T, k refint.Kind, depth int) *tw.Expr {
 			if g.env != nil {
 				return rapid.SampledFrom([]*tw.Expr{
 					tw.Dot(tw.Var("om"), "s"), tw.Dot(tw.Var("st"), "name"), tw.Index(tw.Var("as"), intLit(1)), tw.Index(tw.Var("st"), tw.Str("Name")),
+					tw.Dot(tw.Var("pp"), "name"),
 				}).Draw(rt, "member")
 			}
 			return g.leaf(rt, k)
